@@ -194,6 +194,9 @@ pub struct ExpectedFailure {
   /// for a visited `Missing` entry under follow_dynamic: any of these tokens counts as surfaced
   pub alternatives: Vec<String>,
   pub why: String,
+  /// a `Missing` entry that is the (redirect-followed) target of a followed dependency of a
+  /// visited module: with follow_dynamic it must be reported in place at that import
+  pub is_dependency_target: bool,
 }
 
 /// Every failure reachable along the selected edges, per the statement of C02/C15.
@@ -205,6 +208,59 @@ pub fn expected_failures(
 ) -> Vec<ExpectedFailure> {
   let slots = slot_map(g);
   let mut out = vec![];
+  // where the followed dependencies of visited modules end up (walk semantics: a redirect entry
+  // is only consulted when there is no slot)
+  // value: tokens of policy errors reported for an edge ending there (such an edge is reported
+  // as failing by its own error; the missing target behind it is then not reported separately)
+  let mut dep_ends: HashMap<ModuleSpecifier, Vec<String>> = HashMap::new();
+  for (key, v) in visited {
+    if let (Visited::Module, Some(SlotRef::Module(m))) = (v, slots.get(key)) {
+      // (target, specifier text, is type side)
+      let mut targets: Vec<(&ModuleSpecifier, String, bool, &deno_graph::Range)> = vec![];
+      if o.kind.include_types() {
+        if let Some(td) = m.maybe_types_dependency() {
+          if let Resolution::Ok(ok) = &td.dependency {
+            targets.push((&ok.specifier, td.specifier.clone(), true, &ok.range));
+          }
+        }
+      }
+      let (deps, check_types) = selected_deps(ctx, o, key, m);
+      for (text, dep) in deps {
+        if dep.is_dynamic && !o.follow_dynamic {
+          continue;
+        }
+        if let Resolution::Ok(ok) = &dep.maybe_code {
+          targets.push((&ok.specifier, text.clone(), false, &ok.range));
+        }
+        if check_types {
+          if let Resolution::Ok(ok) = &dep.maybe_type {
+            targets.push((&ok.specifier, text.clone(), true, &ok.range));
+          }
+        }
+      }
+      for (t, text, types, range) in targets {
+        let tag = if types { "T:" } else { "R:" };
+        let rs = key.scheme();
+        let ss = t.scheme();
+        let mut policy = vec![];
+        if rs == "https" && ss == "http" {
+          policy.push(format!("{}dg{}@{}", tag, ctx.spec(t), ctx.ranges.id(&range.to_string())));
+        } else if (rs == "https" || rs == "http") && ss == "file" && text.to_lowercase().starts_with("file://") {
+          policy.push(format!("{}li{}@{}", tag, ctx.spec(t), ctx.ranges.id(&range.to_string())));
+        }
+        let mut cur = t.clone();
+        let mut guard = 0;
+        while !slots.contains_key(&cur) && guard < 64 {
+          match g.redirects.get(&cur) {
+            Some(n) => cur = n.clone(),
+            None => break,
+          }
+          guard += 1;
+        }
+        dep_ends.entry(cur).or_default().extend(policy);
+      }
+    }
+  }
   for (key, v) in visited {
     match v {
       Visited::Redirect(_) => {}
@@ -215,8 +271,19 @@ pub fn expected_failures(
         if let ModuleErrorKind::Missing { specifier, .. } = e.as_kind() {
           // may be surfaced "in place" as a dynamic missing error of the same specifier
           alternatives.push(format!("MD{}@", ctx.spec(specifier)));
+          if o.follow_dynamic {
+            // ... or the import that points at it is itself reported as a policy violation
+            if let Some(p) = dep_ends.get(key) {
+              alternatives.extend(p.iter().cloned());
+            }
+          }
         }
-        out.push(ExpectedFailure { token, alternatives, why: format!("error entry at {}", key) });
+        out.push(ExpectedFailure {
+          token,
+          alternatives,
+          why: format!("error entry at {}", key),
+          is_dependency_target: dep_ends.contains_key(key),
+        });
       }
       Visited::Module => {
         let Some(SlotRef::Module(m)) = slots.get(key) else { continue };
@@ -228,6 +295,7 @@ pub fn expected_failures(
               token: format!("{}c{}", tag, ctx.errors.id(&e.to_string_with_range())),
               alternatives: vec![],
               why: format!("failed resolution of {:?} in {}", text, key),
+              is_dependency_target: false,
             }),
             Resolution::Ok(ok) => {
               let rs = key.scheme();
@@ -237,12 +305,14 @@ pub fn expected_failures(
                   token: format!("{}dg{}@{}", tag, ctx.spec(&ok.specifier), ctx.ranges.id(&ok.range.to_string())),
                   alternatives: vec![],
                   why: format!("https -> http import {:?} in {}", text, key),
+                  is_dependency_target: false,
                 });
               } else if (rs == "https" || rs == "http") && ss == "file" && text.to_lowercase().starts_with("file://") {
                 out.push(ExpectedFailure {
                   token: format!("{}li{}@{}", tag, ctx.spec(&ok.specifier), ctx.ranges.id(&ok.range.to_string())),
                   alternatives: vec![],
                   why: format!("remote module importing literal file: URL {:?} in {}", text, key),
+                  is_dependency_target: false,
                 });
               }
             }
